@@ -65,7 +65,7 @@ static void graded_matrix(int n, int logc, int salt, ldc D[NMAX][NMAX]) {
 static int build_matrix(const xcase_t *c, tmat_t *T) {
     int n = c->n; int pat[NMAX][NMAX]; ldc D[NMAX][NMAX];
     if (c->graded) { graded_matrix(n, c->graded, c->salt, D); for (int i = 0; i < n; i++) for (int j = 0; j < n; j++) pat[i][j] = 1; }
-    else for (int i = 0; i < n; i++) for (int j = 0; j < n; j++) { pat[i][j] = (c->bits >> (i * n + j)) & 1; D[i][j] = generic_value(i, j, c->salt) * scale_pow(c->scal, 0, i) * scale_pow(c->scal, 1, j); }
+    else for (int i = 0; i < n; i++) for (int j = 0; j < n; j++) { pat[i][j] = (c->bits >> (i * n + j)) & 1; D[i][j] = generic_value(i, j, c->salt) * scale_pow(c->scal, 0, i) * scale_pow(c->scal, 1, j); if (c->scal == 6 && i == j && i == 0) D[i][j] *= ldexpl(1, sizeof(real_t) == 4 ? -21 : -50); }
     /* round to the working precision: the matrix the library sees IS the matrix of the problem */
     for (int i = 0; i < n; i++) for (int j = 0; j < n; j++) D[i][j] = S2L(L2S(D[i][j]));
     tm_from_dense(T, n, n, pat, D);
@@ -146,10 +146,31 @@ static void op_matrix(const ldc A[NMAX][NMAX], int n, int trans, ldc M[NMAX][NMA
     for (int i = 0; i < n; i++) for (int j = 0; j < n; j++) M[i][j] = trans == NOTRANS ? A[i][j] : trans == TRANS ? A[j][i] : conjl(A[j][i]);
 }
 static ld ulp_rel(ld a, ld b) { ld d = fabsl(a - b), m = fabsl(a) > fabsl(b) ? fabsl(a) : fabsl(b); return m > 0 ? d / (m * EPSM) : 0; }
+/* the same with LAPACK's complex magnitude convention CABS1 = |re|+|im| (what ?gsrfs reports as berr) */
+static ld cw_backward_error_abs1(const ldc M[NMAX][NMAX], int n, const ldc *x, const ldc *b) {
+    ld w = 0;
+    for (int i = 0; i < n; i++) { ldc s = 0; ld den = PIVABS(b[i]); for (int j = 0; j < n; j++) { s += M[i][j] * x[j]; den += PIVABS(M[i][j]) * PIVABS(x[j]); } ld r = PIVABS(b[i] - s); if (den > 0) { if (r / den > w) w = r / den; } else if (r > 0) w = INFINITY; }
+    return w;
+}
 static ld cw_backward_error(const ldc M[NMAX][NMAX], int n, const ldc *x, const ldc *b) {
     ld w = 0;
     for (int i = 0; i < n; i++) { ldc s = 0; ld den = ABSL(b[i]); for (int j = 0; j < n; j++) { s += M[i][j] * x[j]; den += ABSL(M[i][j]) * ABSL(x[j]); } ld r = ABSL(b[i] - s); if (den > 0) { if (r / den > w) w = r / den; } else if (r > 0) w = INFINITY; }
     return w;
+}
+
+/* row-wise backward error  max_i |b - Mx|_i / (||M_i,:||_1 ||x||_inf + |b_i|): unlike the componentwise measure it stays meaningful when the
+   exact solution has zero components (a computed 1e-32 in place of an exact 0 makes the componentwise ratio 1 in a row  m_ij x_j = 0) */
+static ld row_backward_error(const ldc M[NMAX][NMAX], int n, const ldc *x, const ldc *b) {
+    ld w = 0, xn = 0; for (int j = 0; j < n; j++) if (ABSL(x[j]) > xn) xn = ABSL(x[j]);
+    for (int i = 0; i < n; i++) { ldc s = 0; ld rn = 0; for (int j = 0; j < n; j++) { s += M[i][j] * x[j]; rn += ABSL(M[i][j]); } ld den = rn * xn + ABSL(b[i]), r = ABSL(b[i] - s); if (den > 0) { if (r / den > w) w = r / den; } else if (r > 0) w = INFINITY; }
+    return w;
+}
+/* is the componentwise measure degenerate for (M,x,b)?  some row has |M||x|+|b| far below its row-wise scale, or below LAPACK's safe2 */
+static int cw_degenerate(const ldc M[NMAX][NMAX], int n, const ldc *x, const ldc *b) {
+    ld xn = 0; for (int j = 0; j < n; j++) if (ABSL(x[j]) > xn) xn = ABSL(x[j]);
+    ld safe2 = (ld)(n + 1) * (ld)XLAMCH("S") / EPSM;
+    for (int i = 0; i < n; i++) { ld den = ABSL(b[i]), rn = 0; for (int j = 0; j < n; j++) { den += ABSL(M[i][j]) * ABSL(x[j]); rn += ABSL(M[i][j]); } if (den <= safe2 * 4 || den < 1e3L * EPSM * rn * xn) return 1; }
+    return 0;
 }
 
 /* ------------------------------------------------------------------ judge one case (all four properties share the run) */
@@ -175,7 +196,8 @@ static void run_case(const xcase_t *c)
     /* exact solution and right-hand side: B = op(A) * xtrue, rounded to working precision */
     ldc M0[NMAX][NMAX]; op_matrix(A0, n, c->trans, M0);
     ldc xt[3 * NMAX], B[3 * NMAX];
-    for (int k = 0; k < nrhs; k++) for (int i = 0; i < n; i++) xt[k * NMAX + i] = (ld)(1 + ((i + 2 * k) % 3)) - (IS_COMPLEX ? 0.5L * ((i + k) % 2) * 1.0iL : 0);
+    /* the second right-hand side has exact zeros in its solution (a decoupled unknown then stays exactly 0 through refinement) */
+    for (int k = 0; k < nrhs; k++) for (int i = 0; i < n; i++) xt[k * NMAX + i] = (k == 1) ? (ld)((i + 2) % 3) : (ld)(1 + ((i + 2 * k) % 3)) - (IS_COMPLEX ? 0.5L * ((i + k) % 2) * 1.0iL : 0);
     for (int k = 0; k < nrhs; k++) for (int i = 0; i < n; i++) { ldc s = 0; for (int j = 0; j < n; j++) s += M0[i][j] * xt[k * NMAX + j]; B[k * NMAX + i] = S2L(L2S(s)); }
 
     xres_t *res = &r;
@@ -238,9 +260,10 @@ static void run_case(const xcase_t *c)
         /* X solves the ORIGINAL system op(A0) X = B */
         if (fact == FACTORED) {   /* original system of the second call: op(A_unscaled) x = B2, where A_unscaled is the caller's first matrix */ }
         for (int k = 0; k < nrhs; k++) {
-            ld w = cw_backward_error(M0, n, &res->X[k * NMAX], &B2[k * NMAX]);
+            ld w = cw_degenerate(M0, n, &res->X[k * NMAX], &B2[k * NMAX]) ? row_backward_error(M0, n, &res->X[k * NMAX], &B2[k * NMAX]) : cw_backward_error(M0, n, &res->X[k * NMAX], &B2[k * NMAX]);
             ld allow = wellcond ? 8 * (n + 1) * EPSM * (IS_COMPLEX ? 3 : 1) : GAMMA(3 * n) * (growth > 1 ? growth : 1) * 16 + 8 * (n + 1) * EPSM;
-            if (!(w <= allow)) { char sig[96]; if (IS_COMPLEX && c->trans == CONJ) snprintf(sig, sizeof sig, "C07:solution:tr=2"); else snprintf(sig, sizeof sig, "C07:solution:tr=%d:nr=%d:fact=%d:equed=%d", c->trans, c->as_nr, fact, res->equed); viol(sig, cs, "rhs %d: componentwise backward error %.3Le of the returned X for the original system exceeds %.3Le (cond=%.3Lg growth=%.3Lg)", k, w, allow, conds, growth); break; }
+            if (!(w <= allow)) { char sig[96]; if (IS_COMPLEX && c->trans == CONJ) snprintf(sig, sizeof sig, "C07:solution:tr=2"); else snprintf(sig, sizeof sig, "C07:solution:tr=%d:nr=%d:fact=%d:equed=%d", c->trans, c->as_nr, fact, res->equed); viol(sig, cs, "rhs %d: componentwise backward error %.3Le of the returned X for the original system exceeds %.3Le (cond=%.3Lg growth=%.3Lg)", k, w, allow, conds, growth);
+                if (getenv("VF_DUMP")) for (int i = 0; i < n; i++) fprintf(stderr, "i=%d X=%.17Lg xt=%.17Lg b=%.17Lg berr=%g\n", i, creall(res->X[k*NMAX+i]), creall(xt[k*NMAX+i]), creall(B2[k*NMAX+i]), (double)res->berr[k]); break; }
         }
         if (!wellcond) G->illcond++;
     }
@@ -317,9 +340,11 @@ static void run_case(const xcase_t *c)
         for (int k = 0; k < nrhs; k++) {
             ldc xs[NMAX], bs[NMAX]; ld xnorm = 0, err = 0;
             for (int i = 0; i < n; i++) { ld f = notran_eff ? (colequ ? (ld)res->C[i] : 1) : (rowequ ? (ld)res->R[i] : 1); xs[i] = res->X[k * NMAX + i] / f; bs[i] = res->Bout[k * NMAX + i]; }
-            ld w = cw_backward_error(Ms, n, xs, bs);
+            if (cw_degenerate(Ms, n, xs, bs)) { G->skipped++; continue; }      /* componentwise backward error not meaningful (exact zeros / underflow range) */
+            ld w = cw_backward_error_abs1(Ms, n, xs, bs);
             ld slackb = 4 * (n + 2) * EPSM * (IS_COMPLEX ? 3 : 1);
-            if (fabsl((ld)res->berr[k] - w) > slackb + 0.02L * w) { char sig[64]; snprintf(sig, sizeof sig, "C13:berr-untruthful:tr=%d", c->trans); viol(sig, cs, "rhs %d: returned berr=%.4g but the componentwise backward error of the returned X is %.4Lg", k, (double)res->berr[k], w); }
+            if (fabsl((ld)res->berr[k] - w) > slackb + 0.02L * w) { char sig[64]; snprintf(sig, sizeof sig, "C13:berr-untruthful:tr=%d", c->trans); viol(sig, cs, "rhs %d: returned berr=%.4g but the componentwise backward error of the returned X is %.4Lg", k, (double)res->berr[k], w);
+                if (getenv("VF_DUMP")) { for (int i = 0; i < n; i++) fprintf(stderr, "i=%d X=%.17Lg xs=%.17Lg bs=%.17Lg\n", i, creall(res->X[k*NMAX+i]), creall(xs[i]), creall(bs[i])); for (int i = 0; i < n; i++) for (int j = 0; j < n; j++) fprintf(stderr, "Ms[%d][%d]=%.17Lg\n", i, j, creall(Ms[i][j])); } }
             if (conds < 1 / sqrtl(EPSM) && c->u >= 0.1 && !((ld)res->berr[k] <= 4 * (n + 1) * EPSM * (IS_COMPLEX ? 3 : 1))) { { char sg[48]; snprintf(sg, sizeof sg, "C13:berr-large:tr=%d", c->trans); viol(sg, cs, "rhs %d: berr=%.4g although cond=%.3Lg < 1/sqrt(eps)", k, (double)res->berr[k], conds); } }
             if (conds < 0.1L / EPSM && cond1 < 0.1L / EPSM && c->u >= 0.1) {
                 /* exact solution of the scaled system in long double */
@@ -405,15 +430,16 @@ static struct { int n; const char *grid; const char *family; int islice, nslice;
 static void cases_for_pattern(unsigned long long bits, int n) {
     xcase_t c; int full = !strcmp(SW.grid, "full");
     static const double US[2] = { 1.0, 0.1 };
-    int nscal = (!strcmp(PROP, "C11") || !strcmp(PROP, "C07")) ? 6 : 4;
+    int nscal = 7;
     for (int scal = 0; scal < nscal; scal++) for (int tr = 0; tr < 3; tr++) for (int nr = 0; nr < 2; nr++) for (int fi = 0; fi < 4; fi++) {
         /* fi: 0 DOFACT, 1 EQUILIBRATE, 2 FACTORED after DOFACT, 3 FACTORED after EQUILIBRATE */
-        if (!full && scal > 3 && !(tr == 0 && nr == 0)) continue;
+        if (!full && scal > 3 && scal < 6 && !(tr == 0 && nr == 0)) continue;
+        if (scal == 6 && (fi > 1 || !(bits & 1))) continue;                    /* needs the (0,0) entry; first-time factorizations only */
         for (int nrhs = (full ? 0 : 1); nrhs <= 2; nrhs++) for (int P = 1; P <= (full ? 2 : 1); P++) for (int ui = 0; ui < (full ? 2 : 1); ui++) for (int ld = 0; ld < 2; ld++) {
             if (!full && nrhs == 1 && ld == 1) continue;
             memset(&c, 0, sizeof c); c.n = n; c.bits = bits; c.salt = (int)(bits % 5); c.scal = scal; c.trans = tr; c.as_nr = nr;
             c.fact = fi == 0 ? DOFACT : fi == 1 ? EQUILIBRATE : FACTORED; c.fact0 = fi == 3 ? EQUILIBRATE : DOFACT;
-            c.nrhs = nrhs; c.nprocs = P; c.u = US[ui]; c.w = 1 + 3 * ((int)(bits % 2)); c.relax = 1 + (int)(bits % 3); c.ord = (int)((bits >> 3) % 4);
+            c.nrhs = nrhs; c.nprocs = P; c.u = scal == 6 ? 0.0 : US[ui]; c.w = 1 + 3 * ((int)(bits % 2)); c.relax = 1 + (int)(bits % 3); c.ord = scal == 6 ? 0 : (int)((bits >> 3) % 4);
             c.ldb_extra = ld ? 1 : 0; c.ldx_extra = ld ? 3 : 0;
             run_case(&c);
         }
